@@ -228,9 +228,39 @@ func (f *Formatter) formatArgument(arg *ast.Argument) {
 	f.writeString(arg.Value.String())
 }
 
+// walkDirectiveList adds the variables used as directive arguments, f.e. @skip(if: $flag)
+func walkDirectiveList(directives ast.DirectiveList, res map[string]string) {
+	for _, d := range directives {
+		for _, a := range d.Arguments {
+			if a.Value == nil || a.Value.Kind != ast.Variable {
+				continue
+			}
+			argType := "Boolean!"
+			if d.Definition != nil {
+				if ad := d.Definition.Arguments.ForName(a.Name); ad != nil && ad.Type != nil {
+					argType = ad.Type.String()
+				}
+			}
+			res[a.Value.Raw] = argType
+		}
+	}
+}
+
+// walkFragmentDirectives visits directives placed on inline fragments
+func walkFragmentDirectives(s ast.SelectionSet, res map[string]string) {
+	for _, selection := range s {
+		if fragment, ok := selection.(*ast.InlineFragment); ok {
+			walkDirectiveList(fragment.Directives, res)
+			walkFragmentDirectives(fragment.SelectionSet, res)
+		}
+	}
+}
+
 func (f *Formatter) walkArgumentList(s ast.SelectionSet) map[string]string {
 	res := make(map[string]string)
+	walkFragmentDirectives(s, res)
 	for _, field := range common.SelectionSetToFields(s, nil) {
+		walkDirectiveList(field.Directives, res)
 		for _, a := range field.Arguments {
 			if field.Definition == nil || field.Definition.Arguments == nil {
 				break
